@@ -7,8 +7,8 @@ import CelmaVerif.Lemmas.ParseFaithful
   call of `iterateArguments`; the last-argument marker and the "`!` was read" flag of the handler are
   carried from one call to the next (the reading position and the "behind `--`" mode are not: each call
   has its own parser).  `SPE cfg l inv r us l' inv'` is `SP cfg l inv r us` together with the marker
-  `l'` and the flag `inv'` at the end of the line; both are determined by the derivation
-  (`SPE_functional`).  `iterate_faithful`: a successful call spells — in this grammar, from the state
+  `l'` and the flag `inv'` at the end of the line; both, and the uses, are determined by the elements
+  and the start state (`SPE_functional`, proved in Lemmas/SourcesFunctional.lean).  `iterate_faithful`: a successful call spells — in this grammar, from the state
   it started in — exactly the uses it logged, and ends in the state the grammar says.
 -/
 namespace CelmaVerif.ProgArgs
